@@ -14,6 +14,30 @@
 #include <errno.h>
 
 #ifdef VP_CBMC
+#include <ctype.h>
+/* glibc's isspace()/isdigit()/... macros index the table returned by __ctype_b_loc(): the "C" locale table, built once */
+static unsigned short vp_ctype_tab[384]; static const unsigned short *vp_ctype_ptr; static int vp_ctype_ready;
+const unsigned short **__ctype_b_loc(void)
+{
+  if (!vp_ctype_ready) {
+    for (int c = 0; c < 256; c++) {
+      unsigned short m = 0;
+      if (c >= 'A' && c <= 'Z') m |= _ISupper | _ISalpha | _ISalnum | _ISprint | _ISgraph;
+      if (c >= 'a' && c <= 'z') m |= _ISlower | _ISalpha | _ISalnum | _ISprint | _ISgraph;
+      if (c >= '0' && c <= '9') m |= _ISdigit | _ISxdigit | _ISalnum | _ISprint | _ISgraph;
+      if ((c >= 'A' && c <= 'F') || (c >= 'a' && c <= 'f')) m |= _ISxdigit;
+      if (c == ' ' || (c >= 9 && c <= 13)) m |= _ISspace;
+      if (c == ' ' || c == 9) m |= _ISblank;
+      if (c == ' ') m |= _ISprint;
+      if (c < 32 || c == 127) m |= _IScntrl;
+      if ((c >= 33 && c <= 47) || (c >= 58 && c <= 64) || (c >= 91 && c <= 96) || (c >= 123 && c <= 126)) m |= _ISpunct | _ISprint | _ISgraph;
+      vp_ctype_tab[128 + c] = m;
+      if (c >= 128) vp_ctype_tab[c - 128 + 0] = m;       /* negative char values -128..-1 alias 128..255 */
+    }
+    vp_ctype_ptr = vp_ctype_tab + 128; vp_ctype_ready = 1;
+  }
+  return &vp_ctype_ptr;
+}
 #define VPM(n) n
 #define VPM_ASSERT(c, m) __CPROVER_assert(c, m)
 #else
